@@ -161,7 +161,12 @@ impl Stats {
     /// an oracle failure observed on the *implementation* (independent of the model).
     /// `finding` names the known-finding class this belongs to, or "" for none.
     pub fn oracle_failure(&mut self, case: u64, what: &str, finding: &str, replay: Vec<String>) {
-        if self.oracle_failures.len() < 50 {
+        // the cap is per (property prefix, finding class): a stream that serves several properties must not let the
+        // failures of one property (or of a known finding) crowd out those of another
+        let key = |w: &str, f: &str| format!("{}|{}", w.split(':').next().unwrap_or(""), f);
+        let k = key(what, finding);
+        let same = self.oracle_failures.iter().filter(|o| key(o["what"].as_str().unwrap_or(""), o["finding"].as_str().unwrap_or("")) == k).count();
+        if same < 20 && self.oracle_failures.len() < 400 {
             self.oracle_failures.push(json!({
                 "case": case, "what": what, "finding": finding, "replay": replay
             }));
